@@ -224,6 +224,14 @@ void vf::run_case(Src &s, Ctx &c)
     {
         throw Skip{std::string("setup rejected: ") + e.what()};
     }
+    // A third of the cases (decided by the already decoded delta, no choice byte) tighten lambda once more *after* setup(), the order in which
+    // the library's own demos call the setters: whatever a space derives from delta and lambda must follow the later call.
+    if ((uint64_t)(delta * 1e7) % 3 == 0)
+    {
+        lambda = 1.0 + 0.5 * (lambda - 1.0);
+        css->setLambda(lambda);
+        c.count("configuration:lambda-tightened-after-setup");
+    }
     c.note("%s space on %s in R^%u (codim %u, %s Jacobian), tol=%.3g delta=%.4g lambda=%.3g, cap radius %.3g\n", sn[sk], mn[mk], n, con->getCoDimension(),
            analytic ? "analytic" : "numeric", tol, delta, lambda, capR);
     c.count(std::string("space:") + sn[sk]);
